@@ -5,7 +5,7 @@
 // @tier Q
 // @reach logk.tidied
 // @funcs Phreeqc::tidy_logk; Phreeqc::add_logks; Phreeqc::select_log_k_expression; Phreeqc::add_other_logk
-// @bounds three NAMED_EXPRESSIONS a, b = own + cb*a, c = own + c1*b + c2*a stored in the table in an arbitrary order (6 permutations, case split) so that the recursive evaluation is exercised; per expression the terms logK_T0, delta_h, A1 (thorough: and A3) and delta_v are symbolic in [-100,100] (A1/A3 may be zero or not: analytical expression chosen or not), the other terms 0; coefficients from two fixed sets {2,-1.5,0.5,3} / {-0.5,3,1,-2} (keeps the arithmetic linear); tidy_logk is run twice, the first time from arbitrary 'done' marks (what an earlier tidy, or none, left behind); then one species with -add_logk c is resolved
+// @bounds three NAMED_EXPRESSIONS a, b = own + cb*a, c = own + c1*b + c2*a stored in the table in an arbitrary order (6 permutations, case split) so that the recursive evaluation is exercised; per expression the terms logK_T0, delta_h, A1, A3 (quick: A3 only for expression a and the species) and delta_v are symbolic in [-100,100] (A1/A3 may be zero or not: analytical expression chosen or not), the other terms 0; coefficients from two fixed sets {2,-1.5,0.5,3} / {-0.5,3,1,-2} (keeps the arithmetic linear); tidy_logk is run twice, the first time from arbitrary 'done' marks (what an earlier tidy, or none, left behind); then one species with -add_logk c is resolved
 // @oracle the constant the database text prescribes: after every tidy, for every term j, a = sel(a_text), b = sel(b_text) + cb*a, c = sel(c_text) + c1*b + c2*a, where sel keeps the analytical expression if the text gives one and log K/delta H otherwise (exact real arithmetic, tolerance 1e-9); the result of the second tidy equals the first (idempotent re-tidy when another simulation adds named expressions); the species constant is sel(species_text) + cs*c
 // @stubs Phreeqc::error_msg, sformatf (no error is expected: counted)
 // @opts presplit=0
@@ -31,7 +31,8 @@ static void text(class logk *l, const char *pre, double out[MAX_LOG_K_INDICES])
 	for (int k = 0; k < 5; k++)
 	{
 #if VF_TIER < 2
-		if (IDX[k] == T_A3) continue;               /* quick: one analytical coefficient decides the form */
+		/* quick: the second analytical coefficient is symbolic for expression a and for the species only */
+		if (IDX[k] == T_A3 && strcmp(pre, "a") != 0 && strcmp(pre, "species") != 0) continue;
 #endif
 		strcpy(nm, pre); strcat(nm, "_"); strcat(nm, N[k]);
 		out[IDX[k]] = vf_double(nm, -100, 100);
